@@ -30,9 +30,25 @@ Proof.
     specialize (IH i' Hi' Hn). lia.
 Qed.
 
+Lemma byte_column_ge1 : forall fuel s i column, 1 <= column -> 1 <= byte_column fuel s i column.
+Proof.
+  induction fuel as [|fuel IH]; intros s i column H; cbn [byte_column]; [lia|].
+  destruct s as [|c r]; [lia|].
+  destruct (Nat.leb column 1) eqn:E; [lia|]. apply Nat.leb_gt in E. apply IH. lia.
+Qed.
+
+Lemma skip_blanks_ge : forall fuel line column, column <= skip_blanks fuel line column.
+Proof.
+  induction fuel as [|fuel IH]; intros line column; cbn [skip_blanks]; [apply le_n|].
+  destruct (Nat.leb 1 column && Nat.leb column (String.length line))%bool; [|apply le_n].
+  destruct (String.get (column - 1) line) as [c|]; [|apply le_n].
+  destruct (Ascii.eqb c sp || Ascii.eqb c tab)%bool; [|apply le_n].
+  specialize (IH line (S column)). lia.
+Qed.
+
 Section PosLines.
   Variable lines : list string.
-  Variable mc line : nat.
+  Variable mc line first_line anchor_len : nat.
   Hypothesis Hline : 1 <= line.
   Hypothesis Hmc : 1 <= mc.
 
@@ -52,12 +68,14 @@ Section PosLines.
   Lemma inv_post idx acc : Inv idx acc -> Post acc.
   Proof. destruct acc as [[f l]|]; cbn; [tauto|auto]. Qed.
 
-  Lemma inv_upd_prev idx acc :
-    line <= idx -> idx <= List.length lines -> Inv idx acc ->
-    Inv (S idx) (match acc with Some _ => upd acc (idx - 1) | None => None end).
+  Lemma inv_upd_prev idx acc (lb : bool) :
+    line <= idx -> (lb = true -> line < idx) -> idx <= List.length lines -> Inv idx acc ->
+    Inv (S idx) (if lb then upd acc (idx - 1) else acc).
   Proof.
-    intros H1 H2 H. destruct acc as [[f l]|]; [|exact I]. cbn [upd Inv] in *.
-    pose proof (elen_ge_pred lines). lia.
+    intros H1 Hlb H2 H. destruct lb.
+    - specialize (Hlb eq_refl). pose proof (elen_ge_pred lines).
+      destruct acc as [[f l]|]; cbn [upd Inv] in *; lia.
+    - destruct acc as [[f l]|]; cbn [Inv] in *; [lia|exact I].
   Qed.
 
   Lemma inv_upd_here idx acc :
@@ -66,37 +84,43 @@ Section PosLines.
     intros H1 H2 H. destruct acc as [[f l]|]; cbn [upd Inv] in *; lia.
   Qed.
 
-  Lemma pl_loop_ok : forall fuel idx col need acc,
-    line <= idx -> 1 <= col -> Inv idx acc ->
-    exists r, pl_loop fuel lines mc idx col need acc = Some r /\ Post r.
+  Lemma pl_loop_ok : forall fuel idx col need acc lb,
+    line <= idx -> (lb = true -> line < idx) -> 1 <= col -> Inv idx acc ->
+    exists r, pl_loop fuel lines mc first_line anchor_len idx col need acc lb = Some r /\ Post r.
   Proof.
-    induction fuel as [|fuel IH]; intros idx col need acc Hidx Hcol Hacc.
+    induction fuel as [|fuel IH]; intros idx col need acc lb Hidx Hlb Hcol Hacc.
     - exists acc. split; [reflexivity|exact (inv_post idx acc Hacc)].
     - cbn [pl_loop].
       destruct (Nat.ltb (List.length lines) idx) eqn:E1; [exists acc; split; [reflexivity|exact (inv_post idx acc Hacc)]|].
       apply Nat.ltb_ge in E1.
       destruct (Nat.eqb idx 0) eqn:E0; [apply Nat.eqb_eq in E0; lia|].
-      pose proof (inv_upd_prev idx acc Hidx E1 Hacc) as H1.
-      set (acc1 := match acc with Some _ => upd acc (idx - 1) | None => None end) in *.
+      pose proof (inv_upd_prev idx acc lb Hidx Hlb E1 Hacc) as H1.
+      set (acc1 := if lb then upd acc (idx - 1) else acc) in *.
       assert (Hnext : forall need' acc', Inv (S idx) acc' ->
                 exists r, match need' with
                           | String c nr =>
                               if (Ascii.eqb c sp || Ascii.eqb c nl)%bool then
                                 match nr with
                                 | EmptyString => Some acc'
-                                | String _ _ => pl_loop fuel lines mc (S idx) mc nr acc'
+                                | String _ _ => pl_loop fuel lines mc first_line anchor_len (S idx) mc nr acc' true
                                 end
-                              else pl_loop fuel lines mc (S idx) mc need' acc'
+                              else pl_loop fuel lines mc first_line anchor_len (S idx) mc need' acc' false
                           | EmptyString => Some acc'
                           end = Some r /\ Post r).
       { intros need' acc' Ha. destruct need' as [|c nr]; [exists acc'; split; [reflexivity|exact (inv_post _ _ Ha)]|].
         destruct (Ascii.eqb c sp || Ascii.eqb c nl)%bool.
         - destruct nr as [|c2 nr2]; [exists acc'; split; [reflexivity|exact (inv_post _ _ Ha)]|].
-          apply IH; [lia|exact Hmc|exact Ha].
-        - apply IH; [lia|exact Hmc|exact Ha]. }
+          apply IH; [lia|intros _; lia|exact Hmc|exact Ha].
+        - apply IH; [lia|intros X; discriminate X|exact Hmc|exact Ha]. }
       destruct (Nat.eqb (String.length (nth (idx - 1) lines "")) 0) eqn:E2; [exact (Hnext need acc1 H1)|].
       apply Nat.eqb_neq in E2.
-      destruct (Nat.eqb (Nat.min (String.length (nth (idx - 1) lines "")) col) 0) eqn:E3; [apply Nat.eqb_eq in E3; lia|].
+      match goal with |- context [Nat.min (String.length (nth (idx - 1) lines "")) ?c0] => set (col0 := c0) end.
+      assert (Hcol0 : 1 <= col0).
+      { unfold col0. destruct (Nat.eqb idx first_line); [|exact Hcol].
+        pose proof (byte_column_ge1 (String.length (nth (idx - 1) lines "")) (nth (idx - 1) lines "") 0 col Hcol) as B.
+        destruct (Nat.eqb anchor_len 0); [exact B|].
+        match goal with |- 1 <= skip_blanks ?f ?l ?c => pose proof (skip_blanks_ge f l c) end. lia. }
+      destruct (Nat.eqb (Nat.min (String.length (nth (idx - 1) lines "")) col0) 0) eqn:E3; [apply Nat.eqb_eq in E3; lia|].
       assert (Hhere : idx <= elen lines).
       { assert (X : S (idx - 1) <= elen lines).
         { apply elen_nonempty; [lia|]. intros C. rewrite C in E2. apply E2. reflexivity. }
@@ -107,18 +131,24 @@ Section PosLines.
       destruct need' as [|c' nr']; [eexists; split; [reflexivity|exact (inv_post _ _ H2)]|].
       exact (Hnext (String c' nr') _ H2).
   Qed.
-
-  (** NewPositionRange never panics on such a node, and its lines are where they should be. *)
-  Theorem pos_lines_ok value col :
-    1 <= col ->
-    exists f l, pos_lines lines value line col mc = Some (f, l) /\ line <= f /\ f <= l /\ l <= Nat.max line (elen lines).
-  Proof.
-    intros Hcol. unfold pos_lines. destruct value as [|c v]; [exists line, line; repeat split; lia|].
-    destruct (pl_loop_ok (S (List.length lines)) line col (String c v) None (le_n _) Hcol I) as (r & E & P).
-    rewrite E. destruct r as [[f l]|]; [|exists line, line; repeat split; lia].
-    cbn [Post] in P. exists f, l. repeat split; lia.
-  Qed.
 End PosLines.
+
+(** NewPositionRange never panics on a node whose line and column count from 1 (minimum column >= 1), and its lines
+    are where they should be — for every style (block or not) and anchor length. *)
+Theorem pos_lines_ok lines mc line value col block anchor_len :
+  1 <= line -> 1 <= mc -> 1 <= col ->
+  exists f l, pos_lines lines value line col mc block anchor_len = Some (f, l) /\
+              line <= f /\ f <= l /\ l <= Nat.max line (elen lines).
+Proof.
+  intros Hline Hmc Hcol. unfold pos_lines. destruct value as [|c v]; [exists line, line; repeat split; lia|].
+  assert (Hc0 : 1 <= (if block then mc else col)) by (destruct block; assumption).
+  assert (Hs : line <= (if block then S line else line)) by (destruct block; lia).
+  destruct (pl_loop_ok lines mc line line anchor_len Hline Hmc (S (List.length lines)) (if block then S line else line)
+                       (if block then mc else col) (String c v) None false Hs (fun X => False_ind _ (Bool.diff_false_true X)) Hc0 I)
+    as (r & E & P).
+  rewrite E. destruct r as [[f l]|]; [|exists line, line; repeat split; lia].
+  cbn [Post] in P. exists f, l. repeat split; lia.
+Qed.
 
 (** The oracle the correspondence runs use satisfies the hypothesis of the "lines inside the file" theorems. *)
 Theorem plines_run_ok : forall lines n mc,
@@ -127,14 +157,15 @@ Theorem plines_run_ok : forall lines n mc,
   snd (plines_run lines n mc) <= Nat.max (n_line n) (elen lines).
 Proof.
   intros lines n mc H1 H2 H3. unfold plines_run.
-  destruct (pos_lines_ok lines mc (n_line n) H1 H3 (n_value n) (n_col n) H2) as (f & l & E & A & B & C).
+  destruct (pos_lines_ok lines mc (n_line n) (n_value n) (n_col n) (node_block n) (node_anchor_len n) H1 H3 H2) as (f & l & E & A & B & C).
   rewrite E. cbn [fst snd]. repeat split; assumption.
 Qed.
 
 (** ... and never takes the panic branch. *)
 Theorem pos_lines_total : forall lines n mc,
-  1 <= n_line n -> 1 <= n_col n -> 1 <= mc -> pos_lines lines (n_value n) (n_line n) (n_col n) mc <> None.
+  1 <= n_line n -> 1 <= n_col n -> 1 <= mc ->
+  forall block anchor_len, pos_lines lines (n_value n) (n_line n) (n_col n) mc block anchor_len <> None.
 Proof.
-  intros lines n mc H1 H2 H3.
-  destruct (pos_lines_ok lines mc (n_line n) H1 H3 (n_value n) (n_col n) H2) as (f & l & E & _). rewrite E. discriminate.
+  intros lines n mc H1 H2 H3 block anchor_len.
+  destruct (pos_lines_ok lines mc (n_line n) (n_value n) (n_col n) block anchor_len H1 H3 H2) as (f & l & E & _). rewrite E. discriminate.
 Qed.
